@@ -338,7 +338,7 @@ def main(tier, seed, replay=None):
                      lambda: ExactWrap(claripy.SolverHybrid(approximate_first=True)))]
             ops = ["add", "add", "add", "satisfiable", "eval", "eval", "batch_eval", "min", "max", "min", "max",
                    "solution", "is_true", "simplify", "downsize", "branch", "eval_bool"]
-            f = solverhist.run_histories(claripy, drv, rng, facs, 2500 if tier == "thorough" else 130, 12, report=rep, tag="c13h", ops=ops)
+            f = solverhist.run_histories(claripy, drv, rng, facs, 2500 if tier == "thorough" else 300, 12, report=rep, tag="c13h", ops=ops)
             if f:
                 fails.append(dict(f, site="exact"))
             pin_scenarios(claripy, solverhist, drv, rng, stats, 400 if tier == "thorough" else 60, fails)
